@@ -9,6 +9,7 @@
 -/
 import PydapModel.Slice
 import PydapModel.Generated.Tables
+import PydapModel.Quote
 namespace Pydap.Dmr
 
 abbrev Str := List Char
@@ -56,18 +57,20 @@ def uintTypes : List Str := Pydap.Gen.DMR_UINT_TYPES.map String.toList
 def dap4ToNumpy (t : Str) : Option Str :=
   (Pydap.Gen.DAP4_TO_NUMPY_PARSER_TYPEMAP.find? (·.1.toList == t)).map (·.2.toList)
 
-/-! ### `pydap.lib._quote` on ASCII names (non-ASCII names are outside the model) -/
+/-! ### `pydap.lib._quote`: C12's model (`PydapModel/Quote.lean`), transported to this file's strings
 
-def hexDigitU (n : Nat) : Char := if n < 10 then Char.ofNat (48 + n) else Char.ofNat (55 + n)
+  A `Str` here is the UTF-8 byte string of the Python `str` (one `Char` < 256 per byte: that is how the driver
+  hands ElementTree's strings over).  C12's `Quote.quote` works on lists of characters, a character being the
+  list of its UTF-8 bytes; seen from here every byte is one "character".  For the quoted part of a name that is
+  exact (urllib quotes byte by byte); the 8 *characters* that `_quote` passes through when a name starts with
+  `dap4` are 8 bytes here, so names starting with `dap4` whose first 8 characters are not ASCII are outside
+  the model (the theorems exclude names starting with `dap4` altogether). -/
 
-def quoteChar (c : Char) : Str :=
-  if c.isAlphanum || c = '_' || c = '-' || c = '~' || c = '%' || c = '!' || c = '*' || c = '\'' || c = '"' || c = '/'
-  then [c]
-  else if c = '[' then "%5B".toList else if c = ']' then "%5D".toList
-  else ['%', hexDigitU (c.toNat / 16), hexDigitU (c.toNat % 16)]      -- includes '.' → %2E
+def toQ (s : Str) : Pydap.Quote.Str := s.map fun c => [UInt8.ofNat c.toNat]
+def ofQ (q : Pydap.Quote.Str) : Str := q.flatten.map fun b => Char.ofNat b.toNat
 
-/-- `_quote(name)` for names not starting with "dap4" -/
-def quoteName (s : Str) : Str := s.flatMap quoteChar
+/-- `_quote(name)` -/
+def quoteName (s : Str) : Str := ofQ (Pydap.Quote.quote (toQ s))
 
 /-! ### `get_variables`, `get_named_dimensions` -/
 
